@@ -212,7 +212,12 @@ Quiesce == /\ IsEvent("quiesce")
                            \/ Fld(cfg, "kf_f1", FALSE)       \* known finding F1: scenario built to lose the window update after a zero window
            /\ On("C04") => \A e \in E : Real(e) => WindowReopened(e)
            /\ Same
+\* C02: "lost handshake packets ... are recovered from by retransmission ... or the connection fails with an explicit error":
+\* a scenario that lost at most three packets must not end with the connection attempt still pending at the deadline (the
+\* SYN / SYN-ACK is retransmitted after 1, 3, 7, 15 s; the scenario deadlines are 20 s and more)
+HandshakeDone == ~(Ev.why \in {"connect-timeout", "accept-timeout"} /\ faults <= 3)
 End == /\ IsEvent("end")
+       /\ On("C02") => HandshakeDone
        \* (the pair driver logs `end` at least 30 ms after the applications finished; the raw-peer driver ends with its script)
        /\ (On("C04") /\ ~Fld(cfg, "raw_b", FALSE)) => \A e \in E : WindowReopened(e)
        /\ (On("C02") /\ Ev.why = "done") =>
